@@ -45,6 +45,10 @@ func (w *World) handleLevelChunkWithLightPacket(packet pk.Packet) error {
 	if currentDimType == nil {
 		return fmt.Errorf("dimension type %d not found", w.p.DimensionType)
 	}
+	// the height comes from the server's registry data: vanilla allows 16..4064
+	if currentDimType.Height < 0 || currentDimType.Height > 4064 {
+		return fmt.Errorf("dimension type %d has invalid height %d", w.p.DimensionType, currentDimType.Height)
+	}
 	chunk := level.EmptyChunk(int(currentDimType.Height) / 16)
 	if err := packet.Scan(&pos, chunk); err != nil {
 		return err
